@@ -353,11 +353,17 @@ def mounted_concurrency(tier):
     e1.install_bc([fs.staged_write_path.__wrapped__, fs.staged_write.__wrapped__, js.JsonFileStore.write, ps.PickleFileStore.write, ts.TextFileStore.write], mode="all")
     cfgs = [{"kind": k, "threads": 2, "mode": m} for k in ("text", "json") for m in ("write-read", "read-read")]
     cfgs += [{"kind": "files", "files": f, "threads": 2, "mode": "write-read"} for f in ("pathlib", "str")]
-    if tier != "quick":
-        cfgs += [{"kind": "text", "threads": 3, "mode": "write-read"}]
     budget = {"preempt": 1} if tier == "quick" else {"preempt": 2}
     agg = e1run.explore(CONC_FACTORY, cfgs, budget)
     v, _ = e1run.to_violations(PROP, agg, CONC_FACTORY, budget)
+    if tier != "quick":
+        # three threads: one preemption (two would be ~10^6 executions for this configuration alone)
+        c3 = [{"kind": "text", "threads": 3, "mode": "write-read"}, {"kind": "files", "files": "pathlib", "threads": 3, "mode": "write-read"}]
+        a3 = e1run.explore(CONC_FACTORY, c3, {"preempt": 1})
+        v3, _ = e1run.to_violations(PROP, a3, CONC_FACTORY, {"preempt": 1})
+        v += v3
+        agg = e1run.merge([agg, a3])
+        cfgs = cfgs + c3
     return v, {"mounted_concurrent_configs": len(cfgs), "mounted_concurrent_executions": agg["executions"], "mounted_concurrent_budget": budget,
                "mounted_concurrent_capped": agg["capped"]}
 
